@@ -13,6 +13,10 @@ mkdir -p "$SV"; cp -r /verif/claims "$SV/"; cp /verif/known_findings.json "$SV/"
 out=/verif/seeded/$name; mkdir -p "$out"
 cp "$seed"/patch.diff "$out/"; cp "$seed"/*.go "$seed"/run.sh "$seed"/notes.md "$out/" 2>/dev/null
 log="$out/eval.log"; : > "$log"
+echo "== control: check $prop on the unchanged tree" >> "$log"
+/verif/bin/govc check -prop "$prop" -tier quick -repo "$W" -verif "$SV" > "$out/control.out" 2>&1; rc_control=$?
+grep -v "^loaded" "$out/control.out" | tail -3 >> "$log"
+if [ "$rc_control" != 0 ]; then echo "$name CONTROL-FAILED (check does not pass on the unchanged tree: fix that first)"; git -C /repo worktree remove --force "$W" 2>/dev/null; rm -rf "$W" "$SV"; exit 3; fi
 echo "== demo on unchanged tree" >> "$log"
 bash "$seed/run.sh" "$W" >> "$log" 2>&1; rc_clean=$?
 echo "rc=$rc_clean" >> "$log"
